@@ -3,7 +3,7 @@ import numpy as np
 
 from .. import graphs as G
 from .. import oracles as O
-from .common import call
+from .common import call, dtype_variants_agree
 
 PROP = 'C16'
 ANCHORS = ['get_components', 'number_of_components']
@@ -53,6 +53,7 @@ def cases(tier, seed):
         for k in (2, 3, 4):
             for sd in range(3 if thorough else 2):
                 recs.append(['named', 'late_merge_k', n, k, seed * 10 + sd])
+    recs += G.blob_chains(300 if thorough else 100)
     for t in range(600 if thorough else 200):
         n = int(rs.randint(10, 90))
         recs.append(['named', 'late_hub_tree', n, int(rs.randint(1 << 30))])
@@ -178,6 +179,8 @@ def run(case, bct, REC):
                               bool(np.array_equal(np.isfinite(np.asarray(D2, dtype=float))[off], cm[off])), dict(det, D=D2))
             except Exception as e:  # noqa
                 REC.check(PROP, 'get_components', 'agrees_with_distance_bin', False, dict(det, exception=repr(e)[:200]))
+    if n <= 30:
+        dtype_variants_agree(REC, PROP, 'get_components', bct.get_components, A)
     big = sum(1 for c in range(m) if (lab == c).sum() >= 2)
     lm = late_merge_measure(A)
     if big >= 2:
